@@ -1521,4 +1521,869 @@ static void runModel(const ModelCase& c, Ctx& ctx)
 }
 VERIF_SUB(model, ModelCase, genModel, runModel);
 
+// ====================================================================== neighbourhoods ===
+struct NeighCase
+{
+  int kind = 0; // 0 unique, 1 moving, 2 bench, 3 cell, 4 image
+  int ndim = 2;
+  bool xvalid = false;
+  int nmini = 1, nmaxi = 10, nsect = 1, nsmax = ITEST;
+  double radius = TEST;
+  int aniso = 0; // 0 none, 1 coefficients, 2 coefficients + rotation
+  std::vector<double> coeffs, angles; // 3 each
+  double width = 1;
+  std::vector<int> image; // 3
+  int skip = 0;
+  std::vector<double> pts; // data: n * ndim (by sample)
+  std::vector<double> tgt; // targets: m * ndim
+  int reloadSpaceDim = 0;  // default space dimension in force when the object is reloaded (0: the object's own)
+  FOpt fo;
+  template<class A> void io(A& a)
+  {
+    a("kind", kind)("ndim", ndim)("xvalid", xvalid)("nmini", nmini)("nmaxi", nmaxi)("nsect", nsect)("nsmax", nsmax)("radius", radius)
+     ("aniso", aniso)("coeffs", coeffs)("angles", angles)("width", width)("image", image)("skip", skip)("pts", pts)("tgt", tgt)
+     ("reloadSpaceDim", reloadSpaceDim)("fo", fo);
+  }
+};
+static NeighCase genNeigh()
+{
+  NeighCase c;
+  c.kind = G::pick<int>({0, 1, 1, 1, 1, 2, 3, 4});
+  c.ndim = G::i(1, 3);
+  c.xvalid = G::pct(30);
+  c.nmini = G::i(1, 4);
+  c.nmaxi = G::pick<int>({1, 3, 5, 8, 1000});
+  c.nsect = (c.ndim >= 2 && G::pct(50)) ? G::i(2, 8) : 1;
+  c.nsmax = G::pct(40) ? ITEST : G::i(1, 4);
+  c.radius = G::pct(20) ? TEST : genPos(5., 90.);
+  c.aniso = G::i(0, 2);
+  if (c.ndim == 1 && c.aniso == 2) c.aniso = 1;
+  for (int i = 0; i < 3; i++)
+  {
+    c.coeffs.push_back(G::pct(30) ? 1. : genPos(0.05, 2.));
+    c.angles.push_back(genAngle());
+    c.image.push_back(G::i(0, 4));
+  }
+  c.width = G::pct(10) ? 0. : genPos(0.1, 50.);
+  c.skip = G::i(0, 3);
+  int n = G::sz(3, 25), m = G::i(2, 4);
+  for (int i = 0; i < n * c.ndim; i++) c.pts.push_back(G::u(0., 100.));
+  for (int i = 0; i < m * c.ndim; i++) c.tgt.push_back(G::u(0., 100.));
+  c.reloadSpaceDim = G::pct(70) ? 0 : G::i(1, 3);
+  c.fo = genFOpt();
+  return c;
+}
+static Db* pointsDb(const std::vector<double>& p, int ndim, bool withZ)
+{
+  int n = (int)p.size() / ndim;
+  VectorDouble tab;
+  VectorString names, locs;
+  for (int d = 0; d < ndim; d++)
+  {
+    for (int i = 0; i < n; i++) tab.push_back(p[(size_t)(i * ndim + d)]);
+    names.push_back(fmt("x%d", d + 1));
+    locs.push_back(fmt("x%d", d + 1));
+  }
+  if (withZ)
+  {
+    for (int i = 0; i < n; i++) tab.push_back(1. + 0.5 * i);
+    names.push_back("z");
+    locs.push_back("z1");
+  }
+  return Db::createFromSamples(n, ELoadBy::COLUMN, tab, names, locs, false);
+}
+// select() of both objects on the same data bases
+// When the default space in force at reload time has another dimension than the object, the reloaded object
+// has been seen to overflow the heap in select(): such cases are tried first in a child process so that the
+// defect is reported as a failure instead of killing the search.
+static bool g_riskySpace = false;
+static bool survivesInChild(ANeigh& y, const Db* dbin, const Db* dbout)
+{
+  fflush(nullptr);
+  pid_t p = fork();
+  if (p == 0)
+  {
+    stats().outPrefix.clear();
+    int nul = open("/dev/null", O_WRONLY);
+    if (nul >= 0) { dup2(nul, 2); dup2(nul, 1); }
+    try
+    {
+      if (y.attach(dbin, dbout) == 0)
+        for (int it = 0; it < dbout->getSampleNumber(); it++)
+        {
+          VectorInt r;
+          y.select(it, r);
+        }
+    }
+    catch (...) { _exit(3); }
+    _exit(0);
+  }
+  int st = 0;
+  if (p < 0 || waitpid(p, &st, 0) < 0) return true;
+  return WIFEXITED(st) && WEXITSTATUS(st) == 0;
+}
+static bool sameSelection(const std::string& cls, ANeigh& x, ANeigh& y, const Db* dbin, const Db* dbout, Ctx& ctx)
+{
+  if (g_riskySpace && !survivesInChild(y, dbin, dbout))
+  {
+    ctx.fail("space-dim-at-reload:" + cls, "object reloaded while the default space has another dimension than the one stored in the file: attach()/select() "
+             "on data of the object's own dimension kills the process (sanitizer report / exception)");
+    return false;
+  }
+  // the cross-validation switch has no slot in the format ("not represented"): aligned before the queries
+  y.setFlagXvalid(x.getFlagXvalid());
+  int ax = x.attach(dbin, dbout), ay = y.attach(dbin, dbout);
+  if (ax != ay) { ctx.fail(cls + ":query:attach", fmt("attach returns %d before, %d after reload", ax, ay)); return false; }
+  if (ax != 0) return true;
+  for (int it = 0; it < dbout->getSampleNumber(); it++)
+  {
+    VectorInt rx, ry;
+    x.select(it, rx);
+    y.select(it, ry);
+    if (!sameVecI(cls, "select", rx, ry, ctx, ":query:")) return false;
+  }
+  return true;
+}
+static void runNeigh(const NeighCase& c, Ctx& ctx)
+{
+  resetGlobals(c.ndim);
+  std::unique_ptr<Db> dbin(pointsDb(c.pts, c.ndim, true)), dbout(pointsDb(c.tgt, c.ndim, false));
+  // a grid for the cell / image neighbourhoods
+  VectorInt nx;
+  VectorDouble dx, x0;
+  for (int d = 0; d < c.ndim; d++) { nx.push_back(3); dx.push_back(35.); x0.push_back(10.); }
+  std::unique_ptr<DbGrid> grid(DbGrid::create(nx, dx, x0));
+  if (!dbin || !dbout || !grid) { ctx.label("build-refused"); return; }
+  const Db* pin = dbin.get();
+  const Db* pout = dbout.get();
+  Hash h;
+  h.add(c.kind).add(c.ndim).add(c.fo.mode).add(c.xvalid ? 1 : 0);
+  bool ok = false;
+  int rsd = c.reloadSpaceDim > 0 ? c.reloadSpaceDim : c.ndim;
+  g_riskySpace = (rsd != c.ndim);
+  ctx.label(g_riskySpace ? "space-at-reload:other" : "space-at-reload:same");
+  auto freshSpace = [rsd]() { defineDefaultSpace(ESpaceType::RN, rsd); };
+  auto ownSpace = [&c]() { defineDefaultSpace(ESpaceType::RN, c.ndim); };
+  switch (c.kind)
+  {
+    case 0:
+    {
+      ctx.label("class:NeighUnique");
+      std::unique_ptr<NeighUnique> x(NeighUnique::create(c.xvalid));
+      ok = roundTrip<NeighUnique>("NeighUnique", "NeighUnique", "nf_NeighUnique", *x, [&]() { freshSpace(); auto* o = new NeighUnique(); ownSpace(); return o; },
+                                  [&](const std::string& p) { freshSpace(); auto* o = NeighUnique::createFromNF(p, false); ownSpace(); return o; },
+                                  [&](const NeighUnique& a, const NeighUnique& b, Ctx& cx) {
+                                    auto& ctx = cx;
+                                    CHECK_EQ_INT("NeighUnique", "ndim", a.getNDim(), b.getNDim());
+                                    return sameSelection("NeighUnique", const_cast<NeighUnique&>(a), const_cast<NeighUnique&>(b), pin, pout, cx);
+                                  }, c.fo, ctx);
+      break;
+    }
+    case 1:
+    {
+      // the anisotropic variants have their own class key (a known defect lives there)
+      std::string cls = c.aniso == 0 ? "NeighMoving" : (c.aniso == 1 ? "NeighMovingAniso" : "NeighMovingAnisoRot");
+      ctx.label("class:" + cls);
+      ctx.label(c.nsect > 1 ? "sectors:yes" : "sectors:no");
+      VectorDouble coeffs, angles;
+      if (c.aniso >= 1) for (int d = 0; d < c.ndim; d++) coeffs.push_back(c.coeffs[(size_t)d]);
+      if (c.aniso == 2) for (int d = 0; d < c.ndim; d++) angles.push_back(c.angles[(size_t)d]);
+      std::unique_ptr<NeighMoving> x(NeighMoving::create(c.xvalid, c.nmaxi, c.radius, c.nmini, c.nsect, c.nsmax, coeffs, angles));
+      if (!x) { ctx.label("build-refused"); return; }
+      int ndim = c.ndim;
+      ok = roundTrip<NeighMoving>(cls, "NeighMoving", "nf_NeighMoving", *x, [&]() { freshSpace(); auto* o = new NeighMoving(); ownSpace(); return o; },
+                                  [&](const std::string& p) { freshSpace(); auto* o = NeighMoving::createFromNF(p, false); ownSpace(); return o; },
+                                  [&, cls, ndim](const NeighMoving& a, const NeighMoving& b, Ctx& cx) {
+                                    auto& ctx = cx;
+                                    CHECK_EQ_INT(cls, "ndim", a.getNDim(), b.getNDim());
+                                    CHECK_EQ_INT(cls, "nmini", a.getNMini(), b.getNMini());
+                                    CHECK_EQ_INT(cls, "nmaxi", a.getNMaxi(), b.getNMaxi());
+                                    CHECK_EQ_INT(cls, "nsect", a.getNSect(), b.getNSect());
+                                    CHECK_EQ_INT(cls, "nsmax", a.getNSMax(), b.getNSMax());
+                                    CHECK_EQ_INT(cls, "flag-sector", a.getFlagSector(), b.getFlagSector());
+                                    CHECK_EQ_DBL(cls, "radius", a.getRadius(), b.getRadius());
+                                    CHECK_EQ_INT(cls, "flag-aniso", a.getFlagAniso(), b.getFlagAniso());
+                                    if (a.getFlagAniso())
+                                    {
+                                      if (!sameVecD(cls, "aniso-coeffs", a.getAnisoCoeffs(), b.getAnisoCoeffs(), cx)) return false;
+                                      CHECK_EQ_INT(cls, "flag-rotation", a.getFlagRotation(), b.getFlagRotation());
+                                      if (a.getFlagRotation())
+                                      {
+                                        const VectorDouble &ra = a.getAnisoRotMats(), &rb = b.getAnisoRotMats();
+                                        if (ra.size() != rb.size()) { cx.fail(cls + ":get:rotmat", "rotation matrices of different sizes"); return false; }
+                                        for (size_t k = 0; k < ra.size(); k++)
+                                          if (std::fabs(ra[k] - rb[k]) > 2e-15) { cx.fail(cls + ":get:rotmat", fmt("element %d: %.17g before, %.17g after reload", (int)k, ra[k], rb[k])); return false; }
+                                      }
+                                    }
+                                    // behaviour: the normalised distance of generated increments, then select()
+                                    int bd = a.getBiPtDist()->getNDim();
+                                    CHECK_EQ_INT(cls, "dist-ndim", bd, b.getBiPtDist()->getNDim());
+                                    for (int q = 0; q + 1 < (int)c.tgt.size() / ndim; q++)
+                                    {
+                                      VectorDouble dd((size_t)bd, 0.);
+                                      for (int d = 0; d < std::min(bd, ndim); d++) dd[(size_t)d] = c.tgt[(size_t)(q * ndim + d)] - c.tgt[(size_t)((q + 1) * ndim + d)];
+                                      CHECK_QRY_DBL(cls, "normalized-distance", a.getBiPtDist()->getNormalizedDistance(dd), b.getBiPtDist()->getNormalizedDistance(dd), 1e-13);
+                                    }
+                                    return sameSelection(cls, const_cast<NeighMoving&>(a), const_cast<NeighMoving&>(b), pin, pout, cx);
+                                  }, c.fo, ctx);
+      h.add(c.nmini).add(c.nmaxi).add(c.nsect).add(c.nsmax).addq(c.radius).add(c.aniso);
+      for (double v : coeffs) h.addq(v);
+      for (double v : angles) h.addq(v);
+      ctx.nontrivial(ok && c.ndim >= 2 && (c.aniso > 0 || c.nsect > 1));
+      break;
+    }
+    case 2:
+    {
+      ctx.label("class:NeighBench");
+      std::unique_ptr<NeighBench> x(NeighBench::create(c.xvalid, c.width));
+      ok = roundTrip<NeighBench>("NeighBench", "NeighBench", "nf_NeighBench", *x, [&]() { freshSpace(); auto* o = new NeighBench(); ownSpace(); return o; },
+                                 [&](const std::string& p) { freshSpace(); auto* o = NeighBench::createFromNF(p, false); ownSpace(); return o; },
+                                 [&](const NeighBench& a, const NeighBench& b, Ctx& cx) {
+                                   auto& ctx = cx;
+                                   CHECK_EQ_INT("NeighBench", "ndim", a.getNDim(), b.getNDim());
+                                   if (!sameSelection("NeighBench", const_cast<NeighBench&>(a), const_cast<NeighBench&>(b), pin, pout, cx)) return false;
+                                   CHECK_EQ_DBL("NeighBench", "width", a.getWidth(), b.getWidth());
+                                   return true;
+                                 }, c.fo, ctx);
+      h.addq(c.width);
+      ctx.nontrivial(ok && c.ndim >= 2 && c.width > 0);
+      break;
+    }
+    case 3:
+    {
+      ctx.label("class:NeighCell");
+      std::unique_ptr<NeighCell> x(NeighCell::create(c.xvalid, c.nmini));
+      const Db* pg = grid.get();
+      ok = roundTrip<NeighCell>("NeighCell", "NeighCell", "nf_NeighCell", *x, [&]() { freshSpace(); auto* o = new NeighCell(); ownSpace(); return o; },
+                                [&](const std::string& p) { freshSpace(); auto* o = NeighCell::createFromNF(p, false); ownSpace(); return o; },
+                                [&](const NeighCell& a, const NeighCell& b, Ctx& cx) {
+                                  auto& ctx = cx;
+                                  CHECK_EQ_INT("NeighCell", "ndim", a.getNDim(), b.getNDim());
+                                  CHECK_EQ_INT("NeighCell", "nmini", a.getNMini(), b.getNMini());
+                                  return sameSelection("NeighCell", const_cast<NeighCell&>(a), const_cast<NeighCell&>(b), pin, pg, cx);
+                                }, c.fo, ctx);
+      h.add(c.nmini);
+      ctx.nontrivial(ok && c.ndim >= 2 && c.nmini > 1);
+      break;
+    }
+    default:
+    {
+      ctx.label("class:NeighImage");
+      VectorInt image;
+      for (int d = 0; d < c.ndim; d++) image.push_back(c.image[(size_t)d]);
+      std::unique_ptr<NeighImage> x(NeighImage::create(image, c.skip));
+      const Db* pg = grid.get();
+      ok = roundTrip<NeighImage>("NeighImage", "NeighImage", "nf_NeighImage", *x, [&]() { freshSpace(); auto* o = new NeighImage(); ownSpace(); return o; },
+                                 [&](const std::string& p) { freshSpace(); auto* o = NeighImage::createFromNF(p, false); ownSpace(); return o; },
+                                 [&](const NeighImage& a, const NeighImage& b, Ctx& cx) {
+                                   auto& ctx = cx;
+                                   CHECK_EQ_INT("NeighImage", "ndim", a.getNDim(), b.getNDim());
+                                   CHECK_EQ_INT("NeighImage", "skip", a.getSkip(), b.getSkip());
+                                   if (!sameVecI("NeighImage", "image-radius", a.getImageRadius(), b.getImageRadius(), cx)) return false;
+                                   return sameSelection("NeighImage", const_cast<NeighImage&>(a), const_cast<NeighImage&>(b), pg, pg, cx);
+                                 }, c.fo, ctx);
+      for (int v : image) h.add(v);
+      h.add(c.skip);
+      ctx.nontrivial(ok && c.ndim >= 2);
+      break;
+    }
+  }
+  if (c.kind == 0) ctx.nontrivial(ok && c.ndim >= 2 && c.xvalid);
+  ctx.sig = h.h;
+}
+VERIF_SUB(neigh, NeighCase, genNeigh, runNeigh);
+
+// ====================================================================== Vario ============
+struct VDir
+{
+  int npas = 3, optcode = 0;
+  double dpas = 1, toldis = 0.5, tolang = 45, tolcode = 0;
+  std::vector<double> codir;  // ndim
+  std::vector<int> grincr;    // ndim (grid definition) or empty
+  std::vector<double> sw, hh, gg; // direct filling: sized for the asymmetric case, the first getDirSize values are used
+  template<class A> void io(A& a)
+  {
+    a("npas", npas)("optcode", optcode)("dpas", dpas)("toldis", toldis)("tolang", tolang)("tolcode", tolcode)("codir", codir)("grincr", grincr)("sw", sw)("hh", hh)("gg", gg);
+  }
+};
+struct VarioCase
+{
+  int ndim = 2, nvar = 1;
+  int calc = 0; // ECalcVario value
+  double scale = 0;
+  std::vector<VDir> dirs;
+  std::vector<double> vars;
+  std::vector<std::string> names;
+  bool grid = false;
+  bool computed = false;  // arrays computed by the library from a generated Db instead of filled directly
+  std::vector<double> data; // computed: n * (ndim + nvar) by column
+  bool emptyLags = false; // direct filling: lags without pairs (sw = 0, hh = gg = NA) as the library produces them
+  FOpt fo;
+  template<class A> void io(A& a)
+  {
+    a("ndim", ndim)("nvar", nvar)("calc", calc)("scale", scale)("dirs", dirs)("vars", vars)("names", names)("grid", grid)("computed", computed)("data", data)("emptyLags", emptyLags)("fo", fo);
+  }
+};
+static const char* calcName(int calc)
+{
+  static const char* n[] = {"vg", "cov", "covg", "mado", "rodo", "poisson", "general1", "general2", "general3", "covnc", "order4", "trans1", "trans2", "binormal"};
+  return (calc >= 0 && calc < 14) ? n[calc] : "vg";
+}
+static bool calcAsym(int calc) { return calc == 1 || calc == 2 || calc == 9; }
+static VarioCase genVario()
+{
+  VarioCase c;
+  c.ndim = G::i(1, 3);
+  c.nvar = G::i(1, 3);
+  c.calc = G::pct(60) ? 0 : G::pick<int>({1, 2, 3, 4, 5, 9, 10, 13});
+  c.scale = G::pct(50) ? 0. : genPos(1e-3, 1e3);
+  c.grid = G::pct(25);
+  c.computed = !c.grid && G::pct(30);
+  if (c.computed && !(c.calc == 0 || c.calc == 1 || c.calc == 3 || c.calc == 4 || c.calc == 9)) c.calc = 0;
+  c.emptyLags = G::pct(30);
+  int ndir = G::sz(1, 3);
+  // the arrays of an asymmetric calculation are reloaded with the wrong size (type not stored): with several
+  // directions the rest of the text is then misparsed (a value becomes a lag count -> allocation of GBytes kills
+  // the process), so this recorded defect is exhibited with one direction only
+  if (calcAsym(c.calc)) ndir = 1;
+  for (int k = 0; k < ndir; k++)
+  {
+    VDir d;
+    d.npas = G::sz(1, 5);
+    d.optcode = c.computed ? 0 : G::i(0, 2); // (directions with different pair checkers make Vario::compute read uninitialised pointers: C12's ground)
+    d.dpas = c.computed ? G::u(5., 30.) : genPos(1e-3, 1e6);
+    d.toldis = G::pick<double>({0.5, 0.25, 0.1, 0.33333333333333331});
+    d.tolang = G::pct(30) ? 90. : genPos(1., 90.);
+    d.tolcode = (c.computed || G::pct(60)) ? 0. : genVal(0);
+    if (std::fabs(d.tolcode) > 1e9) d.tolcode = 1.;
+    for (int i = 0; i < c.ndim; i++)
+    {
+      d.codir.push_back((i == k % c.ndim) ? 1. : (G::pct(50) ? 0. : G::u(-1., 1.)));
+      if (c.grid) d.grincr.push_back((i == k % c.ndim) ? G::i(1, 3) : G::i(-2, 2));
+    }
+    int nmax = (2 * d.npas + 1) * c.nvar * (c.nvar + 1) / 2;
+    for (int i = 0; i < nmax; i++)
+    {
+      bool empty = c.emptyLags && G::pct(25);
+      d.sw.push_back(empty ? 0. : (G::b() ? (double)G::i(1, 5000) : genPos(1e-3, 1e6)));
+      d.hh.push_back(empty ? TEST : (G::pct(10) ? 0. : genPos(1e-6, 1e9)));
+      double g = genVal(0);
+      d.gg.push_back(empty ? TEST : g);
+    }
+    c.dirs.push_back(d);
+  }
+  // variance-covariance matrix of the variables: symmetric by nature
+  c.vars.assign((size_t)(c.nvar * c.nvar), 0.);
+  for (int i = 0; i < c.nvar; i++)
+    for (int j = 0; j <= i; j++) c.vars[(size_t)(i * c.nvar + j)] = c.vars[(size_t)(j * c.nvar + i)] = genVal(0);
+  for (int i = 0; i < c.nvar; i++) c.names.push_back(genName(i));
+  if (c.computed)
+  {
+    int n = G::sz(4, 20);
+    for (int k = 0; k < c.ndim; k++)
+      for (int i = 0; i < n; i++) c.data.push_back(G::u(0., 100.));
+    for (int k = 0; k < c.nvar; k++)
+      for (int i = 0; i < n; i++) c.data.push_back(G::pct(10) ? TEST : (c.calc == 5 ? (double)G::i(0, 9) : G::r(-50, 50, 16)));
+  }
+  c.fo = genFOpt();
+  return c;
+}
+static bool cmpVario(const std::string& cls, const Vario& x, const Vario& y, Ctx& ctx)
+{
+  CHECK_EQ_INT(cls, "ndim", x.getDimensionNumber(), y.getDimensionNumber());
+  CHECK_EQ_INT(cls, "nvar", x.getVariableNumber(), y.getVariableNumber());
+  CHECK_EQ_INT(cls, "ndir", x.getDirectionNumber(), y.getDirectionNumber());
+  CHECK_EQ_DBL(cls, "scale", x.getVarioParam().getScale(), y.getVarioParam().getScale());
+  int nvar = x.getVariableNumber(), ndim = x.getDimensionNumber();
+  for (int i = 0; i < nvar; i++)
+  {
+    if (x.getVariableName(i) != y.getVariableName(i))
+    {
+      ctx.fail(cls + ":get:variable-name", "variable " + fmt("%d", i) + ": '" + x.getVariableName(i) + "' before, '" + y.getVariableName(i) + "' after reload");
+      return false;
+    }
+    for (int j = 0; j < nvar; j++) CHECK_EQ_DBL(cls, "var", x.getVar(i, j), y.getVar(i, j));
+  }
+  for (int id = 0; id < x.getDirectionNumber(); id++)
+  {
+    const DirParam &a = x.getDirParam(id), &b = y.getDirParam(id);
+    CHECK_EQ_INT(cls, "npas", a.getLagNumber(), b.getLagNumber());
+    CHECK_EQ_INT(cls, "optcode", a.getOptionCode(), b.getOptionCode());
+    CHECK_EQ_DBL(cls, "tolcode", a.getTolCode(), b.getTolCode());
+    CHECK_EQ_DBL(cls, "dpas", a.getDPas(), b.getDPas());
+    CHECK_EQ_DBL(cls, "toldis", a.getTolDist(), b.getTolDist());
+    CHECK_EQ_INT(cls, "grid-definition", a.isDefinedForGrid(), b.isDefinedForGrid());
+    if (!a.isDefinedForGrid()) CHECK_EQ_DBL(cls, "tolangle", a.getTolAngle(), b.getTolAngle());
+    else if (!sameVecI(cls, "grincr", a.getGrincrs(), b.getGrincrs(), ctx)) return false;
+    if (!sameVecD(cls, "codir", a.getCodirs(), b.getCodirs(), ctx)) return false;
+    CHECK_EQ_INT(cls, "dir-ndim", a.getNDim(), ndim);
+    CHECK_EQ_INT(cls, "dir-ndim-reloaded", b.getNDim(), ndim);
+    CHECK_EQ_INT(cls, "dir-size", x.getDirSize(id), y.getDirSize(id));
+    for (int i = 0; i < x.getDirSize(id); i++)
+    {
+      double sx = x.getSwByIndex(id, i), sy = y.getSwByIndex(id, i);
+      double hx = x.getHhByIndex(id, i), hy = y.getHhByIndex(id, i);
+      double gx = x.getGgByIndex(id, i), gy = y.getGgByIndex(id, i);
+      // the writer replaces undefined values by 0 (lags without pairs): own key
+      if ((isNAv(sx) && sy == 0) || (isNAv(hx) && hy == 0) || (isNAv(gx) && gy == 0))
+      {
+        ctx.fail("vario-na-written-as-zero:" + cls, fmt("direction %d entry %d: (sw,hh,gg) = (%s,%s,%s) before, (%s,%s,%s) after reload", id, i, dstr(sx).c_str(),
+                                                        dstr(hx).c_str(), dstr(gx).c_str(), dstr(sy).c_str(), dstr(hy).c_str(), dstr(gy).c_str()));
+        return false;
+      }
+      CHECK_EQ_DBL(cls, "sw", sx, sy);
+      CHECK_EQ_DBL(cls, "hh", hx, hy);
+      CHECK_EQ_DBL(cls, "gg", gx, gy);
+    }
+    // queries
+    for (int i = 0; i < nvar; i++)
+      for (int j = 0; j <= i; j++)
+        for (int compress = 0; compress < 2; compress++)
+        {
+          if (!sameVecD(cls, "getGgVec", x.getGgVec(id, i, j, false, false, compress != 0), y.getGgVec(id, i, j, false, false, compress != 0), ctx, ":query:")) return false;
+          if (!sameVecD(cls, "getHhVec", x.getHhVec(id, i, j, compress != 0), y.getHhVec(id, i, j, compress != 0), ctx, ":query:")) return false;
+          if (!sameVecD(cls, "getSwVec", x.getSwVec(id, i, j, compress != 0), y.getSwVec(id, i, j, compress != 0), ctx, ":query:")) return false;
+        }
+  }
+  return true;
+}
+static void runVario(const VarioCase& c, Ctx& ctx)
+{
+  resetGlobals(c.ndim);
+  // arrays of an asymmetric calculation (2*npas+1 lags) have their own class key: the calculation type is not stored
+  std::string cls = calcAsym(c.calc) ? "VarioAsym" : "Vario";
+  ctx.label("class:" + cls);
+  ctx.label(std::string("calc:") + calcName(c.calc));
+  ctx.label(c.grid ? "dirs:grid" : (c.computed ? "dirs:computed" : "dirs:filled"));
+  SpaceRN space((unsigned int)c.ndim);
+  VarioParam vp(c.scale);
+  std::unique_ptr<DbGrid> grid;
+  if (c.grid)
+  {
+    VectorInt nx;
+    VectorDouble dx, x0;
+    for (int d = 0; d < c.ndim; d++) { nx.push_back(5); dx.push_back(1.5 + d); x0.push_back(10. * d); }
+    grid.reset(DbGrid::create(nx, dx, x0));
+    if (!grid) { ctx.label("build-refused"); return; }
+  }
+  ctx.at("Vario:build");
+  for (const auto& d : c.dirs)
+  {
+    if (c.grid)
+    {
+      DirParam dp(grid.get(), d.npas, toVI(d.grincr), &space);
+      vp.addDir(dp);
+    }
+    else
+    {
+      DirParam dp(d.npas, d.dpas, d.toldis, d.tolang, d.optcode, 0, TEST, TEST, d.tolcode, VectorDouble(), toVD(d.codir), TEST, &space);
+      vp.addDir(dp);
+    }
+  }
+  std::unique_ptr<Vario> x;
+  std::unique_ptr<Db> db;
+  bool hasNA = false;
+  if (c.computed)
+  {
+    int n = (int)c.data.size() / (c.ndim + c.nvar);
+    VectorString names, locs;
+    for (int k = 0; k < c.ndim; k++) { names.push_back(fmt("x%d", k + 1)); locs.push_back(fmt("x%d", k + 1)); }
+    for (int k = 0; k < c.nvar; k++) { names.push_back(c.names[(size_t)k]); locs.push_back(fmt("z%d", k + 1)); }
+    db.reset(Db::createFromSamples(n, ELoadBy::COLUMN, toVD(c.data), names, locs, false));
+    if (!db) { ctx.label("build-refused"); return; }
+    ctx.at("Vario:computeFromDb");
+    x.reset(Vario::computeFromDb(vp, db.get(), ECalcVario::fromValue(c.calc)));
+    if (!x) { ctx.label("build-refused"); return; }
+  }
+  else
+  {
+    x.reset(Vario::create(vp));
+    if (!x) { ctx.label("build-refused"); return; }
+    x->setNVar(c.nvar);
+    x->setCalculByName(calcName(c.calc));
+    x->internalVariableResize();
+    x->internalDirectionResize(x->getDirectionNumber(), true);
+    x->setVars(toVD(c.vars));
+    x->setVariableNames(toVS(c.names));
+    for (int id = 0; id < x->getDirectionNumber(); id++)
+    {
+      const VDir& d = c.dirs[(size_t)id];
+      int n = x->getDirSize(id);
+      if (n > (int)d.sw.size()) { ctx.label("build-refused"); return; }
+      for (int i = 0; i < n; i++)
+      {
+        x->setSwByIndex(id, i, d.sw[(size_t)i]);
+        x->setHhByIndex(id, i, d.hh[(size_t)i]);
+        x->setGgByIndex(id, i, d.gg[(size_t)i]);
+      }
+    }
+  }
+  for (int id = 0; id < x->getDirectionNumber(); id++)
+    for (int i = 0; i < x->getDirSize(id); i++) hasNA = hasNA || isNAv(x->getGgByIndex(id, i)) || isNAv(x->getHhByIndex(id, i));
+  ctx.label(hasNA ? "empty-lags:yes" : "empty-lags:no");
+  bool ok = roundTrip<Vario>(cls, "Vario", "nf_Vario", *x, []() { VarioParam v0; return new Vario(v0); },
+                             [](const std::string& p) { return Vario::createFromNF(p, false); },
+                             [&](const Vario& a, const Vario& b, Ctx& cx) { return cmpVario(cls, a, b, cx); }, c.fo, ctx);
+  if (!ok) return;
+  ctx.nontrivial((c.nvar >= 2 || c.dirs.size() >= 2) && (c.ndim >= 2));
+  Hash h;
+  h.add(c.ndim).add(c.nvar).add(c.calc).add(c.grid ? 1 : 0).add(c.computed ? 1 : 0).add(c.fo.mode).addq(c.scale);
+  for (auto& d : c.dirs)
+  {
+    h.add(d.npas).add(d.optcode).addq(d.dpas).addq(d.tolang);
+    for (double v : d.codir) h.addq(v);
+    for (int v : d.grincr) h.add(v);
+  }
+  ctx.sig = h.h;
+}
+VERIF_SUB(vario, VarioCase, genVario, runVario);
+
+// ====================================================================== polygons, lines, faults
+struct Ring
+{
+  std::vector<double> x, y;
+  double zmin = TEST, zmax = TEST;
+  template<class A> void io(A& a) { a("x", x)("y", y)("zmin", zmin)("zmax", zmax); }
+};
+struct PolyCase
+{
+  int kind = 0; // 0 Polygons, 1 PolyLine2D, 2 PolyElem, 3 Faults
+  std::vector<Ring> rings;
+  std::vector<double> q; // queries: nq * 3, in units of the bounding box
+  FOpt fo;
+  template<class A> void io(A& a) { a("kind", kind)("rings", rings)("q", q)("fo", fo); }
+};
+static Ring genRing(bool closedShape, double L, double ox, double oy)
+{
+  Ring r;
+  int n = G::sz(closedShape ? 3 : 1, 8);
+  double cx = ox + L * G::u(0.2, 0.8), cy = oy + L * G::u(0.2, 0.8);
+  bool full = G::b();
+  for (int i = 0; i < n; i++)
+  {
+    double x, y;
+    if (closedShape)
+    {
+      // star-shaped around (cx,cy): a simple polygon
+      double ang = 2. * 3.14159265358979323846 * (i + G::u(0.1, 0.9)) / n;
+      double rad = L * G::u(0.05, 0.2);
+      x = cx + rad * std::cos(ang);
+      y = cy + rad * std::sin(ang);
+    }
+    else
+    {
+      x = ox + L * (i + G::u(0., 1.)) / n;
+      y = oy + L * G::u(0., 1.);
+    }
+    if (!full)
+    {
+      x = strtod(fmt("%.15g", x).c_str(), nullptr);
+      y = strtod(fmt("%.15g", y).c_str(), nullptr);
+    }
+    r.x.push_back(x);
+    r.y.push_back(y);
+  }
+  if (closedShape && G::pct(50)) { r.x.push_back(r.x[0]); r.y.push_back(r.y[0]); }
+  int zl = G::i(0, 3);
+  if (zl & 1) r.zmin = G::pct(20) ? genVal(0) : G::r(-10, 0, 8);
+  if (zl & 2) r.zmax = G::pct(20) ? std::fabs(genVal(0)) + (isNAv(r.zmin) ? 0. : std::fabs(r.zmin)) : G::r(0, 10, 8);
+  return r;
+}
+static PolyCase genPoly()
+{
+  PolyCase c;
+  c.kind = G::pick<int>({0, 0, 0, 1, 2, 3});
+  double L = G::pick<double>({1., 100., 1e4, 1e-3});
+  double ox = G::pct(50) ? 0. : G::r(-10000, 10000, 4), oy = G::pct(50) ? 0. : G::r(-10000, 10000, 4);
+  int nr = (c.kind == 0) ? (G::pct(5) ? 0 : G::sz(1, 4)) : (c.kind == 3 ? (G::pct(5) ? 0 : G::sz(1, 4)) : 1);
+  for (int k = 0; k < nr; k++) c.rings.push_back(genRing(c.kind == 0 || c.kind == 2, L, ox, oy));
+  for (int k = 0; k < 8; k++)
+  {
+    c.q.push_back(ox + L * G::u(0., 1.));
+    c.q.push_back(oy + L * G::u(0., 1.));
+    c.q.push_back(G::r(-12, 12, 4));
+  }
+  c.fo = genFOpt();
+  return c;
+}
+static bool cmpLine2D(const std::string& cls, const PolyLine2D& a, const PolyLine2D& b, Ctx& ctx)
+{
+  CHECK_EQ_INT(cls, "npoints", a.getNPoints(), b.getNPoints());
+  if (!sameVecD(cls, "x", a.getX(), b.getX(), ctx)) return false;
+  if (!sameVecD(cls, "y", a.getY(), b.getY(), ctx)) return false;
+  return true;
+}
+// the surface is a sum of cross products of coordinates: its error is (coordinate error) x (extent), not relative
+static double surfaceTol(const VectorDouble& x, const VectorDouble& y)
+{
+  if (x.empty()) return 0;
+  double mx = 0, ex = 0;
+  double x0 = x[0], x1 = x[0], y0 = y[0], y1 = y[0];
+  for (size_t i = 0; i < x.size(); i++)
+  {
+    mx = std::max(mx, std::max(std::fabs(x[i]), std::fabs(y[i])));
+    x0 = std::min(x0, x[i]); x1 = std::max(x1, x[i]); y0 = std::min(y0, y[i]); y1 = std::max(y1, y[i]);
+  }
+  ex = (x1 - x0) + (y1 - y0);
+  return 1e-13 * mx * ex * (double)x.size();
+}
+static bool cmpElem(const std::string& cls, const PolyElem& a, const PolyElem& b, Ctx& ctx)
+{
+  CHECK_EQ_DBL(cls, "zmin", a.getZmin(), b.getZmin());
+  CHECK_EQ_DBL(cls, "zmax", a.getZmax(), b.getZmax());
+  return cmpLine2D(cls, a, b, ctx);
+}
+static void runPoly(const PolyCase& c, Ctx& ctx)
+{
+  resetGlobals();
+  Hash h;
+  h.add(c.kind).add(c.fo.mode).add((int)c.rings.size());
+  bool zl = false;
+  for (auto& r : c.rings)
+  {
+    for (double v : r.x) h.addq(v);
+    for (double v : r.y) h.addq(v);
+    h.addq(r.zmin).addq(r.zmax);
+    zl = zl || !isNAv(r.zmin) || !isNAv(r.zmax);
+  }
+  bool ok = false;
+  if (c.kind == 0)
+  {
+    ctx.label("class:Polygons");
+    ctx.label(zl ? "zlimits:yes" : "zlimits:no");
+    Polygons x;
+    for (auto& r : c.rings)
+    {
+      PolyElem e(toVD(r.x), toVD(r.y), r.zmin, r.zmax);
+      x.addPolyElem(e);
+    }
+    ok = roundTrip<Polygons>("Polygons", "Polygon", "nf_Polygons", x, []() { return new Polygons(); },
+                             [](const std::string& p) { return Polygons::createFromNF(p, false); },
+                             [&](const Polygons& a, const Polygons& b, Ctx& cx) {
+                               auto& ctx = cx;
+                               CHECK_EQ_INT("Polygons", "npolyelem", a.getPolyElemNumber(), b.getPolyElemNumber());
+                               for (int k = 0; k < a.getPolyElemNumber(); k++)
+                                 if (!cmpElem("Polygons", a.getPolyElem(k), b.getPolyElem(k), cx)) return false;
+                               for (size_t q = 0; q + 2 < c.q.size(); q += 3)
+                                 for (int nested = 0; nested < 2; nested++)
+                                 {
+                                   VectorDouble p2 = {c.q[q], c.q[q + 1]}, p3 = {c.q[q], c.q[q + 1], c.q[q + 2]};
+                                   CHECK_EQ_INT("Polygons", "inside2D", a.inside(p2, nested != 0), b.inside(p2, nested != 0));
+                                   CHECK_EQ_INT("Polygons", "inside3D", a.inside(p3, nested != 0), b.inside(p3, nested != 0));
+                                 }
+                               if (a.getPolyElemNumber() > 0)
+                               {
+                                 double tol = 0;
+                                 for (int k = 0; k < a.getPolyElemNumber(); k++) tol += surfaceTol(a.getPolyElem(k).getX(), a.getPolyElem(k).getY());
+                                 double sa = a.getSurface(), sb = b.getSurface();
+                                 if (!eqv(sa, sb, 1e-12) && std::fabs(sa - sb) > tol) { cx.fail("Polygons:query:surface", fmt("surface: %.17g before, %.17g after reload", sa, sb)); return false; }
+                               }
+                               return true;
+                             }, c.fo, ctx);
+    ctx.nontrivial(ok && c.rings.size() >= 2 && zl);
+  }
+  else if (c.kind == 1)
+  {
+    ctx.label("class:PolyLine2D");
+    if (c.rings.empty()) { ctx.label("build-refused"); return; }
+    PolyLine2D x(toVD(c.rings[0].x), toVD(c.rings[0].y));
+    ok = roundTrip<PolyLine2D>("PolyLine2D", "PolyLine2D", "nf_PolyLine2D", x, []() { return new PolyLine2D(); },
+                               [](const std::string& p) { return PolyLine2D::createFromNF(p, false); },
+                               [&](const PolyLine2D& a, const PolyLine2D& b, Ctx& cx) {
+                                 if (!cmpLine2D("PolyLine2D", a, b, cx)) return false;
+                                 auto& ctx = cx;
+                                 CHECK_QRY_DBL("PolyLine2D", "xmin", a.getXmin(), b.getXmin(), kRel);
+                                 CHECK_QRY_DBL("PolyLine2D", "ymax", a.getYmax(), b.getYmax(), kRel);
+                                 return true;
+                               }, c.fo, ctx);
+    ctx.nontrivial(ok && x.getNPoints() >= 2);
+  }
+  else if (c.kind == 2)
+  {
+    ctx.label("class:PolyElem");
+    if (c.rings.empty()) { ctx.label("build-refused"); return; }
+    const Ring& r = c.rings[0];
+    PolyElem x(toVD(r.x), toVD(r.y), r.zmin, r.zmax);
+    ok = roundTrip<PolyElem>("PolyElem", "PolyElem", nullptr, x, []() { return new PolyElem(); },
+                             [](const std::string& p) { return PolyElem::createFromNF(p, false); },
+                             [&](const PolyElem& a, const PolyElem& b, Ctx& cx) {
+                               if (!cmpElem("PolyElem", a, b, cx)) return false;
+                               auto& ctx = cx;
+                               for (size_t q = 0; q + 2 < c.q.size(); q += 3)
+                                 CHECK_EQ_INT("PolyElem", "inside3D", a.inside3D(c.q[q + 2]), b.inside3D(c.q[q + 2]));
+                               {
+                                 double sa = a.getSurface(), sb = b.getSurface();
+                                 if (!eqv(sa, sb, 1e-12) && std::fabs(sa - sb) > surfaceTol(a.getX(), a.getY())) { cx.fail("PolyElem:query:surface", fmt("surface: %.17g before, %.17g after reload", sa, sb)); return false; }
+                               }
+                               return true;
+                             }, c.fo, ctx);
+    ctx.nontrivial(ok && zl);
+  }
+  else
+  {
+    ctx.label("class:Faults");
+    Faults x;
+    for (auto& r : c.rings)
+    {
+      PolyLine2D l(toVD(r.x), toVD(r.y));
+      x.addFault(l);
+    }
+    ok = roundTrip<Faults>("Faults", "Faults", "nf_Faults", x, []() { return new Faults(); },
+                           [](const std::string& p) { return Faults::createFromNF(p, false); },
+                           [&](const Faults& a, const Faults& b, Ctx& cx) {
+                             auto& ctx = cx;
+                             CHECK_EQ_INT("Faults", "nfaults", a.getNFaults(), b.getNFaults());
+                             for (int k = 0; k < a.getNFaults(); k++)
+                               if (!cmpLine2D("Faults", a.getFault(k), b.getFault(k), cx)) return false;
+                             for (size_t q = 0; q + 5 < c.q.size(); q += 3)
+                               CHECK_EQ_INT("Faults", "isSplitByFault", a.isSplitByFault(c.q[q], c.q[q + 1], c.q[q + 3], c.q[q + 4]),
+                                            b.isSplitByFault(c.q[q], c.q[q + 1], c.q[q + 3], c.q[q + 4]));
+                             return true;
+                           }, c.fo, ctx);
+    ctx.nontrivial(ok && c.rings.size() >= 2);
+  }
+  ctx.sig = h.h;
+}
+VERIF_SUB(polygons, PolyCase, genPoly, runPoly);
+
+// ====================================================================== Table ============
+struct TableCase
+{
+  int nrow = 1, ncol = 1;
+  std::vector<double> v; // by row
+  FOpt fo;
+  template<class A> void io(A& a) { a("nrow", nrow)("ncol", ncol)("v", v)("fo", fo); }
+};
+static TableCase genTable()
+{
+  TableCase c;
+  c.nrow = G::pct(5) ? 0 : G::sz(1, 8);
+  c.ncol = G::pct(5) ? 0 : G::sz(1, 6);
+  int na = G::pick<int>({0, 20, 50});
+  for (int i = 0; i < c.nrow * c.ncol; i++) c.v.push_back(genVal(na));
+  c.fo = genFOpt();
+  return c;
+}
+static void runTable(const TableCase& c, Ctx& ctx)
+{
+  resetGlobals();
+  ctx.label("class:Table");
+  std::unique_ptr<Table> x(Table::create(c.nrow, c.ncol));
+  if (!x) { ctx.label("build-refused"); return; }
+  bool na = false;
+  for (int i = 0; i < c.nrow; i++)
+    for (int j = 0; j < c.ncol; j++) { x->setValue(i, j, c.v[(size_t)(i * c.ncol + j)]); na = na || isNAv(c.v[(size_t)(i * c.ncol + j)]); }
+  bool ok = roundTrip<Table>("Table", "Table", "nf_Table", *x, []() { return new Table(); },
+                             [](const std::string& p) { return Table::createFromNF(p, false); },
+                             [](const Table& a, const Table& b, Ctx& cx) {
+                               auto& ctx = cx;
+                               CHECK_EQ_INT("Table", "nrows", a.getNRows(), b.getNRows());
+                               CHECK_EQ_INT("Table", "ncols", a.getNCols(), b.getNCols());
+                               for (int i = 0; i < a.getNRows(); i++)
+                                 for (int j = 0; j < a.getNCols(); j++) CHECK_EQ_DBL("Table", "value", a.getValue(i, j), b.getValue(i, j));
+                               return true;
+                             }, c.fo, ctx);
+  ctx.nontrivial(ok && c.nrow >= 2 && c.ncol >= 2 && na);
+  Hash h;
+  h.add(c.nrow).add(c.ncol).add(c.fo.mode);
+  for (double v : c.v) h.addq(v);
+  ctx.sig = h.h;
+}
+VERIF_SUB(table, TableCase, genTable, runTable);
+
+// ====================================================================== fracture environment
+struct FracCase
+{
+  std::vector<double> env;  // 6
+  std::vector<double> fam;  // nfam * 10
+  std::vector<double> flt;  // nfault * (2 + 4 * nfamPerFault)
+  int nfam = 1, nfault = 1, nfamPerFault = 1;
+  FOpt fo;
+  template<class A> void io(A& a) { a("env", env)("fam", fam)("flt", flt)("nfam", nfam)("nfault", nfault)("nfamPerFault", nfamPerFault)("fo", fo); }
+};
+static FracCase genFrac()
+{
+  FracCase c;
+  for (int i = 0; i < 6; i++) c.env.push_back(genVal(0));
+  c.nfam = G::pct(10) ? 0 : G::sz(1, 3);
+  c.nfault = G::pct(20) ? 0 : G::sz(1, 3);
+  c.nfamPerFault = G::pct(85) ? c.nfam : G::i(0, 3);
+  for (int i = 0; i < c.nfam * 10; i++) c.fam.push_back(genVal(0));
+  for (int i = 0; i < c.nfault * (2 + 4 * c.nfamPerFault); i++) c.flt.push_back(genVal(0));
+  c.fo = genFOpt();
+  return c;
+}
+static void runFrac(const FracCase& c, Ctx& ctx)
+{
+  resetGlobals();
+  // a fault described for no family writes empty vector records, which have their own reading rule: own class key
+  std::string cls = (c.nfault > 0 && c.nfamPerFault == 0) ? "FracEnvironEmptyFault" : "FracEnviron";
+  ctx.label("class:" + cls);
+  std::unique_ptr<FracEnviron> x(FracEnviron::create(c.env[0], c.env[1], c.env[2], c.env[3], c.env[4], c.env[5]));
+  if (!x) { ctx.label("build-refused"); return; }
+  for (int k = 0; k < c.nfam; k++)
+  {
+    const double* f = &c.fam[(size_t)(k * 10)];
+    x->addFamily(FracFamily(f[0], f[1], f[2], f[3], f[4], f[5], f[6], f[7], f[8], f[9]));
+  }
+  int per = 2 + 4 * c.nfamPerFault;
+  for (int k = 0; k < c.nfault; k++)
+  {
+    const double* f = &c.flt[(size_t)(k * per)];
+    FracFault ft(f[0], f[1]);
+    for (int j = 0; j < c.nfamPerFault; j++) ft.addFaultPerFamily(f[2 + 4 * j], f[3 + 4 * j], f[4 + 4 * j], f[5 + 4 * j]);
+    x->addFault(ft);
+  }
+  bool ok = roundTrip<FracEnviron>(cls, "Fracture Environ", "nf_FracEnviron", *x, []() { return new FracEnviron(); },
+                                   [](const std::string& p) { return FracEnviron::createFromNF(p, false); },
+                                   [cls](const FracEnviron& a, const FracEnviron& b, Ctx& cx) {
+                                     auto& ctx = cx;
+                                     CHECK_EQ_INT(cls, "nfamilies", a.getNFamilies(), b.getNFamilies());
+                                     CHECK_EQ_INT(cls, "nfaults", a.getNFaults(), b.getNFaults());
+                                     CHECK_EQ_DBL(cls, "xmax", a.getXmax(), b.getXmax());
+                                     CHECK_EQ_DBL(cls, "ymax", a.getYmax(), b.getYmax());
+                                     CHECK_EQ_DBL(cls, "deltax", a.getDeltax(), b.getDeltax());
+                                     CHECK_EQ_DBL(cls, "deltay", a.getDeltay(), b.getDeltay());
+                                     CHECK_EQ_DBL(cls, "mean", a.getMean(), b.getMean());
+                                     CHECK_EQ_DBL(cls, "stdev", a.getStdev(), b.getStdev());
+                                     for (int k = 0; k < a.getNFamilies(); k++)
+                                     {
+                                       const FracFamily &fa = a.getFamily(k), &fb = b.getFamily(k);
+                                       CHECK_EQ_DBL(cls, "family-orient", fa.getOrient(), fb.getOrient());
+                                       CHECK_EQ_DBL(cls, "family-dorient", fa.getDorient(), fb.getDorient());
+                                       CHECK_EQ_DBL(cls, "family-theta0", fa.getTheta0(), fb.getTheta0());
+                                       CHECK_EQ_DBL(cls, "family-alpha", fa.getAlpha(), fb.getAlpha());
+                                       CHECK_EQ_DBL(cls, "family-ratcst", fa.getRatcst(), fb.getRatcst());
+                                       CHECK_EQ_DBL(cls, "family-prop1", fa.getProp1(), fb.getProp1());
+                                       CHECK_EQ_DBL(cls, "family-prop2", fa.getProp2(), fb.getProp2());
+                                       CHECK_EQ_DBL(cls, "family-aterm", fa.getAterm(), fb.getAterm());
+                                       CHECK_EQ_DBL(cls, "family-bterm", fa.getBterm(), fb.getBterm());
+                                       CHECK_EQ_DBL(cls, "family-range", fa.getRange(), fb.getRange());
+                                     }
+                                     for (int k = 0; k < a.getNFaults(); k++)
+                                     {
+                                       const FracFault &fa = a.getFault(k), &fb = b.getFault(k);
+                                       CHECK_EQ_DBL(cls, "fault-coord", fa.getCoord(), fb.getCoord());
+                                       CHECK_EQ_DBL(cls, "fault-orient", fa.getOrient(), fb.getOrient());
+                                       CHECK_EQ_INT(cls, "fault-nfamilies", fa.getNFamilies(), fb.getNFamilies());
+                                       for (int j = 0; j < fa.getNFamilies(); j++)
+                                       {
+                                         CHECK_EQ_DBL(cls, "fault-thetal", fa.getThetal(j), fb.getThetal(j));
+                                         CHECK_EQ_DBL(cls, "fault-thetar", fa.getThetar(j), fb.getThetar(j));
+                                         CHECK_EQ_DBL(cls, "fault-rangel", fa.getRangel(j), fb.getRangel(j));
+                                         CHECK_EQ_DBL(cls, "fault-ranger", fa.getRanger(j), fb.getRanger(j));
+                                       }
+                                     }
+                                     CHECK_QRY_DBL(cls, "xextend", a.getXextend(), b.getXextend(), 1e-13);
+                                     return true;
+                                   }, c.fo, ctx);
+  ctx.nontrivial(ok && c.nfam + c.nfault >= 2);
+  Hash h;
+  h.add(c.nfam).add(c.nfault).add(c.nfamPerFault).add(c.fo.mode);
+  for (double v : c.env) h.addq(v);
+  for (double v : c.fam) h.addq(v);
+  ctx.sig = h.h;
+}
+VERIF_SUB(frac, FracCase, genFrac, runFrac);
+
 VERIF_MAIN()
